@@ -17,3 +17,13 @@ class Prop(RefProp):
             'in runErrors, balanced call stack, and the reference interpreter (executed steps, outcome, '
             'runErrors) on the single-pipeline fragment')
     trusted_base = EngineProp.engine_trusted
+
+    def generate(self, rng, n, tier):
+        import gen_pipes
+        cases = []
+        for _ in range(n):
+            case = gen_pipes.gen_case(rng, self.profile)
+            if rng.random() < 0.06:
+                gen_pipes.main_parser_failure(rng, case)
+            cases.append(case)
+        return cases
